@@ -46,7 +46,7 @@ class C05(Prop):
                            "baize.concurrency.run_in_threadpool"],
                   "stub": ["ASGI server (protocol monitor)", "WSGI server (PEP 3333 monitor)", "event loop clock/selector, executor inlined at seeded instants",
                            "os.open/os.read/os.lseek/open() fault injection on real temp files", "WSGI SSE runs without a ping timer race (single producer thread joined by the real pool is replaced by SimThreads)"]}
-    hard_probes = ("disconnect", "send_raises", "server_close_early", "producer_raises", "io_error_os_read", "io_error_file_read", "zerocopy_message", "range_error_response")
+    hard_probes = ("disconnect", "send_raises", "server_close_early", "producer_raises", "io_error_os_read", "io_error_file_read", "zerocopy_message", "range_error_response", "staticapp", "file_vanished")
     quick_runs = 60000
     thorough_runs = 1200000
     batch = 250
@@ -56,14 +56,19 @@ class C05(Prop):
         self.fs = simfs.install(workdir + "/fs")
         for i, (rel, size) in enumerate(FILES):
             self.fs.write(rel, pattern(size, i), mtime=1_600_000_000.0 + i, ctime=1_600_000_000.0 + i)
+        for i, (rel, data) in enumerate(recipes.STATIC_TREE):
+            self.fs.write(rel, data, mtime=1_600_000_100.0 + i, ctime=1_600_000_100.0 + i)
 
     # -- plan ----------------------------------------------------------------
     def gen_plan(self, t):
         iface = t.choice(["asgi", "wsgi"])
-        r = recipes.gen_recipe(t, files=FILES)
+        r = recipes.gen_recipe(t, kinds=["response", "text", "html", "json", "redirect", "stream", "sse", "file", "file", "staticapp"], files=FILES)
         plan = {"iface": iface, "recipe": r, "method": t.weighted([(4, "GET"), (1, "HEAD"), (1, "POST")]),
                 "zerocopy": t.draw(3) == 0, "raising": t.draw(3) == 0, "range": None, "if_range": None,
                 "lat": t.choice(["fast", "mixed"])}
+        if r["kind"] == "staticapp":
+            plan["range"] = t.choice([None, None, None, "bytes=0-1", "bytes=9-"])
+            plan["if_range"] = None
         if r["kind"] == "file":
             if r["size"] // r["chunk_size"] > 150:      # keep the number of emissions per run bounded
                 r["chunk_size"] = r["size"] // (3 + t.draw(40)) + 1
@@ -89,10 +94,12 @@ class C05(Prop):
             vs += [("prod", k) for k in range(len(r["chunks"]) + 1)]
         elif r["kind"] == "sse":
             vs += [("prod", k) for k in range(len(r["events"]) + 1)]
-        elif r["kind"] == "file":
+        elif r["kind"] in ("file", "staticapp"):
             for kind, cnt in sorted(ctx0.notes.get("io_calls", {}).items()):
                 for i in range(1, min(cnt, 6) + 1):
                     vs.append(("io", kind, i))
+                    if kind in ("os_open", "file_open"):
+                        vs.append(("io", kind, i, "enoent"))     # the file vanished between stat() and open()
                 if cnt > 6:
                     vs.append(("io", kind, cnt))
         return vs
@@ -115,17 +122,24 @@ class C05(Prop):
         fs.ctx = ctx
         r = dict(plan["recipe"])
         boom = Boom("producer failure")
+        if r["kind"] == "staticapp":
+            ctx.probe("staticapp")
+        if variant is not None and variant[0] == "io" and len(variant) > 3:
+            ctx.probe("file_vanished")
         if variant is not None and variant[0] == "prod":
             r["raise_at"] = variant[1]
             ctx.fault("producer_raises")
+        fs.fault_flavour = "eio"
         if variant is not None and variant[0] == "io":
             fs.fault_plan = {variant[1]: variant[2]}
+            if len(variant) > 3:
+                fs.fault_flavour = variant[3]
         headers = []
         if plan["range"]:
             headers.append(("range", plan["range"]))
         if plan["if_range"]:
             headers.append(("if-range", plan["if_range"]))
-        req = AbstractRequest(plan["method"], "/x", headers=headers, body=b"")
+        req = AbstractRequest(plan["method"], r["path"] if r["kind"] == "staticapp" else "/x", headers=headers + [("host", "example.org")], body=b"")
         try:
             if plan["iface"] == "asgi":
                 self._asgi(plan, ctx, variant, r, req, boom)
@@ -152,8 +166,11 @@ class C05(Prop):
             return
         if isinstance(exc, ClientGone) and plan["raising"] and variant is not None and variant[0] == "disc":
             return
-        if isinstance(exc, simfs.InjectedIOError) and variant is not None and variant[0] == "io":
+        if isinstance(exc, (simfs.InjectedIOError, simfs.InjectedVanish)) and variant is not None and variant[0] == "io":
             return
+        from baize.exceptions import HTTPException
+        if kind == "staticapp" and isinstance(exc, HTTPException) and exc.status_code == 404 and not plan["recipe"]["handle_404"]:
+            return      # Files/Pages without handle_404 answer a missing file by raising HTTPException(404) before anything is sent
         ctx.violate("C05|%s|foreign-exception|%s|%s" % (surf, kind, type(exc).__name__), "%r %s" % (exc, self._ctx_of(plan, variant)))
 
     # ======================= ASGI =======================
